@@ -282,7 +282,13 @@ fn cmd_worker(a: &Args) -> i32 {
         seen_sigs: BTreeSet::new(),
     };
 
+    let stop_early = a.map.contains_key("stop-after-violations");
     for run in ra..rb {
+        if stop_early && agg.replays_written >= max_violations {
+            // enough distinct failures recorded by this worker: the verdict is settled, the
+            // remaining runs would only cost time (a failing tree can make runs very slow)
+            break;
+        }
         out_line(&format!("B {}", run));
         let seed = mix_seed(base_seed, &prop, run);
         let out = run_once(&prop, tier, Tape::generate(seed), false);
